@@ -43,7 +43,7 @@ KNOWN = os.path.join(VERIF, "known_findings.json")
 
 TIERS = {
     #            plans  faulty/plan  determinism plans  minimise budget  max groups minimised
-    "quick": dict(plans=72, faulty=4, det_plans=12, min_budget=90, min_groups=6, spine=False),
+    "quick": dict(plans=100, faulty=4, det_plans=12, min_budget=90, min_groups=6, spine=False),
     "thorough": dict(plans=1500, faulty=10, det_plans=128, min_budget=160, min_groups=12, spine=True),
 }
 
@@ -264,6 +264,8 @@ def fault_kind(f):
         return "write:" + f["kind"]
     if f["op"] == "git":
         return "git:" + f["kind"]
+    if f["op"] in ("interrupt", "memerror"):
+        return f["op"]
     return "%s:%s" % (f["op"], f.get("errno"))
 
 
@@ -354,7 +356,7 @@ def run_campaign(tier, seed, jobs, only_runs=None):
                     with stats.lock:
                         stats.faulty += 1
                         for f in fplan["faults"]:
-                            stats.bump(stats.faults_planned, "write:" + f["kind"] if f["op"] == "write" else "%s:%s" % (f["op"], f.get("errno")))
+                            stats.bump(stats.faults_planned, fault_kind(f))
                         if "base_git" in fplan:
                             stats.bump(stats.faults_planned, "git:" + fplan["env"]["git"])
                             stats.bump(stats.git_outcomes, fplan["env"]["git"])
@@ -436,6 +438,8 @@ def run_campaign(tier, seed, jobs, only_runs=None):
             say("REPLAY GATE FAILED: a violation did not reproduce identically; simulator nondeterminism, not a verdict")
             write_evidence(tier, seed, t0, ctx, stats, cov, det, exitm, reported, known_hits, cfg, selftest_failed=True)
             return 2
+        if stats.inconclusive:
+            say("note: %d plan(s) inconclusive (both packagings reject the probe under the same toolchain, or the tool tried to write into the repository); first: %s" % (len(stats.inconclusive), json.dumps(stats.inconclusive[0])[:500]))
         for kf, g in known_hits:
             say("KNOWN-FINDING: property=%s %s (%d executions; class %s)" % (PROPERTY, kf["what"], g["count"], g["class"]))
         for r in reported:
